@@ -297,6 +297,45 @@ def handleBoolop (j : Json) : Option Json := do
   let kept := ((if isAnd then C15.iterPass C15.passAnd fuel ops else C15.iterPass C15.passOr fuel ops).map (·.2))
   some (Json.mkObj [("keep", Json.arr (kept.map (fun (i : Nat) => Json.num (JsonNumber.fromNat i))).toArray)])
 
+/-- which pairs of a dict display / elements of a set display the duplicate rules keep: keys are numbers (equal constants
+get equal numbers) -/
+def handleDupKeys (j : Json) : Option Json := do
+  let keys ← (field? j "keys") >>= getArr?
+  let keys ← keys.toList.mapM getNat?
+  let pairs : List (Nat × Nat) := keys.zipIdx
+  let arr (l : List Nat) : Json := Json.arr (l.map (fun (i : Nat) => Json.num (JsonNumber.fromNat i))).toArray
+  some (Json.mkObj [("dict_keeps", arr ((C15.keepLast pairs).map (·.2))),
+                    ("set_keeps", arr ((C15.keepFirst [] (keys.zipIdx.map (fun p => p.1))).map id)),
+                    ("set_first_index", arr ((C15.keepFirst [] keys).map (fun k => keys.idxOf k))),
+                    ("dict_order_python", arr ((C15.build pairs).map (·.1))), ("dict_order_rule", arr ((C15.build (C15.keepLast pairs)).map (·.1)))])
+
+def handleScope (j : Json) : Option Json := do
+  let occs ← (field? j "occs") >>= getArr?
+  let occs ← occs.toList.mapM (fun o => do
+    let a ← getArr? o
+    let outer ← (← getArr? a[2]!).toList.mapM getNat?
+    some ({ name := ← getStr? a[0]!, scope := ← getNat? a[1]!, outer := outer, binding := ← getBool? a[3]! } : C19.Occ))
+  let decls ← (field? j "decls") >>= getArr?
+  let decls ← decls.toList.mapM (fun d => do
+    let a ← getArr? d
+    let k ← getStr? a[2]!
+    some ((← getNat? a[0]!, ← getStr? a[1]!, if k == "g" then C19.Decl.glob else C19.Decl.nonloc) : Nat × String × C19.Decl))
+  let steps ← (field? j "steps") >>= getArr?
+  let steps ← steps.toList.mapM (fun st => do
+    let a ← getArr? st
+    let idx ← (← getArr? a[2]!).toList.mapM getNat?
+    some (← getStr? a[0]!, ← getStr? a[1]!, idx))
+  let P0 : C19.Prog := { occs := occs, decls := decls }
+  let num (n : Nat) : Json := Json.num (JsonNumber.fromNat n)
+  let vars (P : C19.Prog) : Json := Json.arr (P.occs.map (fun o => let v := C19.var P o; Json.arr #[num v.1, Json.str v.2])).toArray
+  let (P, oks) := steps.foldl (fun (acc : C19.Prog × List Bool) (st : String × String × List Nat) =>
+    let P := acc.1
+    let sel := st.2.2.filterMap (fun i => P.occs[i]?)
+    let R : C19.Occ → Bool := fun o => sel.contains o
+    ({ occs := (C19.rename P R st.2.1).occs, decls := P.decls }, acc.2 ++ [C19.checkHyps P R st.1 st.2.1])) (P0, [])
+  some (Json.mkObj [("vars", vars P0), ("ok", Json.arr (oks.map Json.bool).toArray),
+                    ("names", Json.arr (P.occs.map (fun o => Json.str o.name)).toArray), ("vars_after", vars P)])
+
 partial def parseVal (j : Json) : Option C15.Val := do
   let a ← getArr? j
   match (← getStr? a[0]!) with
@@ -542,6 +581,8 @@ def dispatch (j : Json) : Json :=
   | some "blocking" => (handleBlocking j).getD bad
   | some "exec" => (handleExec j).getD bad
   | some "boolop" => (handleBoolop j).getD bad
+  | some "dupkeys" => (handleDupKeys j).getD bad
+  | some "scope" => (handleScope j).getD bad
   | some "validate" => (handleValidate j).getD bad
   | some "lit" => (handleLit j).getD bad
   | some "match" => (handleMatch j).getD bad
